@@ -135,6 +135,35 @@ class Model:
         self._subclasses: dict[str, list] = {}
         self._load()
         self._link()
+        self._apply_roles()
+
+    def _apply_roles(self):
+        """Rename the locals of the functions listed in rules.roles.ROLES to their role names, in place (line numbers kept).
+        A role pattern names a local by the shape of the statement that defines it, so rules can speak of `rr_start` or
+        `least_kept` while the code is free to spell the variable differently (a consistent rename is behaviour-preserving)."""
+        try:
+            from rules.roles import ROLES
+        except Exception:
+            return
+        from . import pat
+        for q, patterns in ROLES.items():
+            f = self.functions.get(q)
+            if f is None:
+                continue
+            env = pat.Env()
+            for p_ in patterns:
+                pat.has(f.node, p_, env)
+            mapping = {actual: mv[2:] for mv, actual in env.items() if not mv.startswith("___") and actual != mv[2:]}
+            if not mapping:
+                continue
+            taken = set(mapping.values())
+            bound = set(env.values())
+            for n in ast.walk(f.node):
+                if isinstance(n, ast.Name) and n.id in taken and n.id not in mapping and n.id not in bound:
+                    mapping[n.id] = n.id + "__other"
+            for n in ast.walk(f.node):
+                if isinstance(n, ast.Name) and n.id in mapping:
+                    n.id = mapping[n.id]
 
     # ------------------------------------------------------------------ loading
     def _load(self):
